@@ -337,3 +337,37 @@ Proof.
   intros E. split; [reflexivity|]. split; [apply pretty_lines_snoc|]. split; [reflexivity|].
   intros m. split; [reflexivity|]. apply sorted_attrs_spec.
 Qed.
+
+(* ---- the pretty TEXT determines the graph's printable content (completeness of pretty_print) ---- *)
+Lemma pretty_text_determines_skel_lemma E g1 g2 :
+  env_ok E -> graph_names_nl g1 -> graph_names_nl g2 -> graph_names_ok g1 -> graph_names_ok g2 ->
+  pretty_text E g1 = pretty_text E g2 -> graph_skel E g1 = graph_skel E g2.
+Proof.
+  intros HE Hn1 Hn2 Ho1 Ho2 Heq.
+  assert (Hl : pretty_lines E g1 = pretty_lines E g2).
+  { rewrite <- (pretty_text_lines_lemma E g1 HE Hn1), <- (pretty_text_lines_lemma E g2 HE Hn2), Heq. reflexivity. }
+  pose proof (pretty_extract_lemma E g1 Ho1) as H1. pose proof (pretty_extract_lemma E g2 Ho2) as H2.
+  rewrite Hl in H1. rewrite H1 in H2. injection H2 as H2. exact H2.
+Qed.
+
+Lemma graph_skel_length E g : length (graph_skel E g) = length g.
+Proof. unfold graph_skel. apply map_length. Qed.
+
+(* what two graphs with the same skeleton share: node count, per node the sorted attribute names with the
+   Debug text of each value, per node the sinks in stored order, per edge the same for its attributes *)
+Lemma graph_skel_eq_shape E g1 g2 : graph_skel E g1 = graph_skel E g2 ->
+  length g1 = length g2 /\
+  map (fun n => map fst (g_edges n)) g1 = map (fun n => map fst (g_edges n)) g2 /\
+  map (fun n => map (fun kv => (fst kv, debug_value E (snd kv))) (sort_alist (g_attrs n))) g1 =
+  map (fun n => map (fun kv => (fst kv, debug_value E (snd kv))) (sort_alist (g_attrs n))) g2.
+Proof.
+  intros H. split; [rewrite <- (graph_skel_length E g1), <- (graph_skel_length E g2), H; reflexivity|].
+  split.
+  - assert (Hm : map (fun p : pattrs * list (N * pattrs) => map fst (snd p)) (graph_skel E g1) =
+                 map (fun p : pattrs * list (N * pattrs) => map fst (snd p)) (graph_skel E g2)) by (rewrite H; reflexivity).
+    unfold graph_skel in Hm. rewrite !map_map in Hm. cbn [fst snd] in Hm.
+    erewrite map_ext in Hm; [rewrite Hm; symmetry|]; [erewrite map_ext; [reflexivity|] |];
+      intros n; cbn [snd]; rewrite map_map; reflexivity.
+  - assert (Hm : map fst (graph_skel E g1) = map fst (graph_skel E g2)) by (rewrite H; reflexivity).
+    unfold graph_skel in Hm. rewrite !map_map in Hm. cbn [fst] in Hm. exact Hm.
+Qed.
